@@ -161,6 +161,13 @@ def gen_case(rnd, oracle=None, kind=None, atype=None, dst=None):
             args['end'] = {'$dt': iso(e)}
     if not oracle and rnd.random() < 0.25:
         args['wacc'] = rnd.choice([0.05, 0.1])
+    # points the statement covers but the equivalence theorems do not (the merged step has ONE discount factor, ONE limit):
+    # optimised as well, so that what the real code does there is on record
+    probe = None
+    if oracle and kind == 'freq' and rnd.random() < 0.3:
+        probe = rnd.choice(['wacc', 'varying_limits', 'cost_store'])
+        if probe == 'wacc':
+            args['wacc'] = rnd.choice([0.5, 1.0, 3.0])
 
     def caps(lo_neg=True):
         if lo_neg:
@@ -181,7 +188,7 @@ def gen_case(rnd, oracle=None, kind=None, atype=None, dst=None):
     if atype in ('SimpleContract', 'Contract', 'MultiCommodityContract'):
         lo, hi = caps()
         form = rnd.random()
-        if not oracle and form < 0.15:
+        if (not oracle and form < 0.15) or probe == 'varying_limits':
             args['min_cap'] = pkey('cmin', -3, -0.5)
             args['max_cap'] = pkey('cmax', 0.5, 3)
         else:
@@ -228,7 +235,7 @@ def gen_case(rnd, oracle=None, kind=None, atype=None, dst=None):
             args['price'] = pkey('pX', 0, 4)
         if not oracle and rnd.random() < 0.15 and two_var:
             args['no_simult_in_out'] = True
-        if not oracle and rnd.random() < 0.15:
+        if (not oracle and rnd.random() < 0.15) or probe == 'cost_store':
             args['cost_store'] = 0.125
     focus = {'type': atype, 'name': 'X', 'nodes': nodes, 'args': args}
     others = []
@@ -245,7 +252,7 @@ def gen_case(rnd, oracle=None, kind=None, atype=None, dst=None):
         others.append({'type': 'Transport', 'name': 'link', 'nodes': ['n1', 'n2'],
                        'args': {'min_cap': 0.0, 'max_cap': 2.0, 'efficiency': 0.875}})
     return {'grid': g, 'nodes': allnodes, 'prices': prices, 'focus': focus, 'opt': opt, 'others': others,
-            'kind': kind, 'oracle': bool(oracle), 'aligned': aligned, 'uniform_dt': uniform}
+            'kind': kind, 'oracle': bool(oracle), 'aligned': aligned, 'uniform_dt': uniform, 'probe': probe}
 
 
 def cases(seed, n):
@@ -628,7 +635,7 @@ def reference_portfolio(case):
         info['covered'] = sorted(i for I in ivs for i in I)
         info['intervals'] = ivs
         # prices replaced by the plain mean over each coarse interval
-        for key in ('price', 'costs_time_series'):
+        for key in ('price', 'costs_time_series', 'min_cap', 'max_cap'):
             k = spec['args'].get(key)
             if isinstance(k, str):
                 arr = prices[k].copy()
@@ -716,6 +723,13 @@ def kind_facts(case, info):
         return 'coarse_remainder'
     if 'freq' in opt and not case.get('uniform_dt', True) and ('max_take' in case['focus']['args'] or 'min_take' in case['focus']['args']):
         return 'coarse_take_first_minor'
+    a_ = case['focus']['args']
+    if 'freq' in opt and a_.get('wacc'):
+        return 'coarse_wacc'
+    if 'freq' in opt and (isinstance(a_.get('min_cap'), str) or isinstance(a_.get('max_cap'), str)):
+        return 'coarse_varying_limits'
+    if 'freq' in opt and a_.get('cost_store'):
+        return 'coarse_cost_store'
     if 'freq' in opt and 'periodicity' in opt:
         step = td(case['grid']['freq'])
         c = td(opt['freq']) / step
